@@ -33,6 +33,7 @@ def specs(ck, n, prop, configs):
     for j, (style, force) in enumerate([("function-local-from-import", ["module-code", "squares", "decorated"]), ("aliased-from-import", ["noncanonical-partial-annotations", "none-default"]),
                                         ("aliased-module", ["noncanonical-partial-annotations", "all-param-kinds"]), ("function-local-import", ["generator", "module-code"]),
                                         # the stub brings nothing new to confine while the source binds / uses TYPE_CHECKING itself
+                                        ("plain-import", ["package-and-submodule-classes", "typevar-annotation"]), ("from-import", ["typevar-annotation", "package-and-submodule-classes", "settings"]),
                                         ("from-import", ["type-checking-try", "none-default"]), ("from-import", ["existing-type-checking-block", "decorated"])]):
         pins.append({"name": f"vfsrc_{prop.lower()}_pin_combo{j}_{ck.seed}", "seed": f"{prop}:pin:combo{j}", "style": style, "configs": configs, "cli": True,
                      "cli_confine": prop == "C16", "force": force,
